@@ -175,16 +175,21 @@ def fsCalls (md : Metadata) (fs : FS) : List Call :=
   funcCalls (md.findFunc fs) ++
   (if md.bc == .field && fs == anySpace1 then [Call.fieldBcs] else [])
 
-inductive Refusal | opBcArgCount | opBcNotOperator | opBcAccess | fieldBcNotField
+inductive Refusal | opBcArgCount | opBcNotOperator | opBcAccess | fieldBcNotField | fieldBcNoAnySpace1
   deriving DecidableEq, Repr
 
-/-- the `GenerationError`s raised by `generate` itself (operator boundary-condition kernel) -/
+/-- the `GenerationError`s raised by `generate` itself (operator boundary-condition kernel) and, for
+both sides alike, by `DynBoundaryConditions` (field boundary-condition kernel without `any_space_1`) -/
 def generateRefusal (md : Metadata) : Option Refusal :=
   if md.bc == .operator then
     match md.args with
     | [a] => if !a.isOp then some .opBcNotOperator
              else if a.acc != .readwrite then some .opBcAccess else none
     | _ => some .opBcArgCount
+  else if md.bc == .field && !md.uniqueFss.contains anySpace1 then
+    -- `DynBoundaryConditions` (used for the stub and for the invoke): "The enforce_bc_code kernel must
+    -- have an argument on ANY_SPACE_1"
+    some .fieldBcNoAnySpace1
   else none
 
 /-- `ArgOrdering.generate`: the calling sequence -/
